@@ -20,8 +20,9 @@ def time_scaled(prob, w):
     p2["f"] = [gen.mul(gen.C(w), sub_t(e)) for e in prob["f"]]
     if prob.get("jac"):
         p2["jac"] = [[gen.mul(gen.C(w), sub_t(e)) for e in row] for row in prob["jac"]]
-    ex0 = prob["exact"]
-    p2["exact"] = lambda s: ex0(w * s)
+    if prob.get("exact"):
+        ex0 = prob["exact"]
+        p2["exact"] = lambda s: ex0(w * s)
     p2["name"] = prob["name"]
     return p2
 
@@ -161,4 +162,77 @@ def oracle_pade(meta, kw, r):
     if abs(got - meta["R"]) > 1e-10 * max(1.0, abs(meta["R"])) + 1e-12:
         out.append(("pade", "one Radau step on y' = lambda y with z = h*lambda = %g multiplies y by %r; the (2,3) Pade approximant of exp gives %r" %
                     (meta["z"], got, meta["R"])))
+    return out
+
+
+# ---- every accepted Radau step of a multi-step run has local error O(h^6) (C02-c: stale stage abscissae under LU reuse) ----
+def radau_steps_builder(seed, n, defaults, tag):
+    """Duffing-type y'' = -y + y^3/6 + eps*t (nonlinear: several Newton passes; weak explicit time dependence) at tight
+    tolerances with the analytic Jacobian: stretches of steps that reuse the factorisation and the Jacobian."""
+    rng = random.Random(seed)
+    cases, metas = [], {}
+    k = 0
+    for eps in (1e-4, 1e-2):
+        for tol in (1e-8, 1e-10):
+            for sgn in (1.0, -1.0):
+                y03 = gen.mul(gen.mul(gen.Y(0), gen.Y(0)), gen.Y(0))
+                f1 = gen.add(gen.add(gen.neg(gen.Y(0)), gen.div(y03, gen.C(6.0))), gen.mul(gen.C(eps * sgn), gen.T))
+                dj = gen.add(gen.C(-1.0), gen.mul(gen.C(0.5), gen.mul(gen.Y(0), gen.Y(0))))
+                f = [gen.Y(1), f1]
+                jac = [[gen.C(0.0), gen.C(1.0)], [dj, gen.C(0.0)]]
+                if sgn < 0:
+                    # integrate the time-reflected problem backward: the same trajectory
+                    f = ["neg," + e for e in f]
+                    jac = [["neg," + e for e in row] for row in jac]
+                prob = {"name": "duffing", "f": f, "y0": [1.0, 0.0], "jac": jac, "span": 8.0}
+                kw = dict(method="RADAU", prob=prob, x0=0.0, xend=sgn * rng.choice([6.0, 8.0]), rtol=tol, atol=tol,
+                          defaults=defaults, use_jac=True)
+                cid = "%sradsteps%d" % (tag, k)
+                k += 1
+                meta = {"family": "duffing", "n": 2, "backward": sgn < 0, "tolmode": "mixed", "method": "RADAU",
+                        "group": "radsteps%d" % k, "eps": eps, "exact": None}
+                cases.append(gen.solve_case(cid, **kw))
+                metas[cid] = (meta, kw)
+    return cases, metas
+
+
+def oracle_radau_steps(meta, kw, r):
+    """local error of every accepted step against a reference flow (classical RK4 with 48 substeps per step, error
+    far below the threshold) started from the step's own left end"""
+    from .oracles import eval_expr
+    out = []
+    if "eps" not in meta or r.get("status") != "Success":
+        if "eps" in meta and r.get("status") not in (None, "error", "panic", "Success"):
+            out.append(("radau-steps-status", "Radau did not finish a smooth problem: %s" % r.get("status")))
+        return out
+    fx = kw["prob"]["f"]
+
+    def f(t, y):
+        return [eval_expr(e, t, y) for e in fx]
+
+    t, y = r["t"], r["y"]
+    worst, where = 0.0, None
+    for i in range(len(t) - 1):
+        h = t[i + 1] - t[i]
+        if abs(h) < 1e-2:
+            continue
+        m = 48
+        hh = h / m
+        tt, yy = t[i], list(y[i])
+        for _ in range(m):
+            k1 = f(tt, yy)
+            k2 = f(tt + hh / 2, [a + hh / 2 * b for a, b in zip(yy, k1)])
+            k3 = f(tt + hh / 2, [a + hh / 2 * b for a, b in zip(yy, k2)])
+            k4 = f(tt + hh, [a + hh * b for a, b in zip(yy, k3)])
+            yy = [a + hh / 6 * (p + 2 * q + 2 * s_ + w) for a, p, q, s_, w in zip(yy, k1, k2, k3, k4)]
+            tt += hh
+        err = max(abs(a - b) for a, b in zip(y[i + 1], yy))
+        q = err / abs(h) ** 6
+        if err > 1e-12 and q > worst:
+            worst, where = q, (i, t[i], h, err)
+    # the unmodified method stays around 1e-3 * h^6 on this problem; 0.05 leaves more than an order of magnitude
+    if worst > 0.05:
+        i, ti, h, err = where
+        out.append(("radau-step-order", "accepted step %d (t=%.6g, h=%.4g) of a Radau run has local error %.3g = %.3g * h^6 "
+                    "against the reference flow: not the O(h^6) of an order-5 step" % (i, ti, h, err, worst)))
     return out
